@@ -1,20 +1,30 @@
 #!/bin/sh
-# X08 binding self-test (b): apply each source mutant to a scratch worktree that already carries
-# the four proposed_fixes/X08_*.patch and require ./check X08 to report a
-# VIOLATION (exit 1).   usage: sh selftest/X08/run_mutants.sh <scratch worktree>    (never /repo)
-WT="$1"; [ -d "$WT/pmutt" ] || { echo "usage: $0 <scratch worktree>"; exit 2; }
+# X08 binding self-test (b): source mutants, re-based on the unchanged HEAD (the four X08 defects are known
+# findings there; a mutant must produce a VIOLATION that is NOT one of them, exit 1).
+#   m*.patch        apply to a scratch worktree of HEAD (constructor mutants are judged through the driver's
+#                   shim_np_product continuation)
+#   onfix/m*.patch  mutate to_dict / from_dict, which do not work at all on HEAD: the script first applies the
+#                   documentation patch proposed_fixes/X08_zacros_dict_roundtrip.patch (+ np_prod), then the mutant
+# usage: sh selftest/X08/run_mutants.sh <scratch worktree of HEAD> [patch ...]      (never /repo)
+WT="$1"; [ -d "$WT/pmutt" ] || { echo "usage: $0 <scratch worktree> [patch ...]"; exit 2; }
 [ "$WT" = "/repo" ] && { echo "refusing to touch /repo"; exit 2; }
+shift
 HERE="$(cd "$(dirname "$0")/../.." && pwd)"
+[ $# -gt 0 ] || set -- "$HERE"/selftest/X08/m*.patch "$HERE"/selftest/X08/onfix/m*.patch
 OUT=$(mktemp -d)
 rc=0
-for p in "$HERE"/selftest/X08/m*.patch; do
-  git -C "$WT" apply "$p" || { echo "cannot apply $p"; rc=2; continue; }
+for p in "$@"; do
+  case "$p" in /*) ;; *) p="$(pwd)/$p";; esac
+  pre=""
+  case "$p" in */onfix/*) pre="$HERE/proposed_fixes/X08_zacros_np_prod.patch $HERE/proposed_fixes/X08_zacros_dict_roundtrip.patch";; esac
+  for q in $pre; do git -C "$WT" apply "$q" || { echo "cannot apply $q"; rc=2; }; done
+  git -C "$WT" apply "$p" || { echo "cannot apply $p"; rc=2; git -C "$WT" checkout -q .; continue; }
   VERIF_REPO="$WT" VERIF_OUT="$OUT" VERIF_MAX_REPLAYS=3 "$HERE/check" X08 > "$OUT/log" 2>&1
   code=$?
-  clauses=$(grep 'violated clause' "$OUT/log" | sed 's/.*violated clause \([A-Za-z0-9]*\).*/\1/' | sort -u | tr '\n' ' ')
+  clauses=$(grep 'violated clause' "$OUT/log" | sed 's/.*violated clause \([A-Za-z0-9_]*\).*/\1/' | sort -u | tr '\n' ' ')
   echo "$(basename "$p"): exit=$code clauses: $clauses"
   [ $code -eq 1 ] || rc=1
-  git -C "$WT" apply -R "$p"
+  git -C "$WT" checkout -q .
 done
 rm -rf "$OUT"
 exit $rc
